@@ -24,6 +24,9 @@ pub(crate) static mut G_NOW: u64 = 0;
 /// the single reported event of this call: internal event index and addressed machine
 pub(crate) static mut G_CUR_EV: usize = 0;
 pub(crate) static mut G_CUR_ID: usize = 0;
+/// second event of a two-event batch (batches are only built from the four event kinds without
+/// accounting or limit effects: NormalRecv, PaddingRecv, TunnelRecv, TunnelSent)
+pub(crate) static mut G_CUR_EV2: usize = usize::MAX;
 /// what each machine must look like when it is looked at next (after its last step, corrected by
 /// the documented limit decrement / withdrawal): the code under test must not change it otherwise
 pub(crate) static mut G_EXPECT: [Snap; MAXM] = [Snap { cs: 0, limit: 0, slot: EMPTY, sig: RSig::None, czo: (false, false) }; MAXM];
@@ -87,6 +90,8 @@ where
             "C10: a machine's state and counters change only in its own steps");
         assert!(pre.limit == G_EXPECT[mi].limit,
             "C07(b)/C10: a machine's limit changes only by its own steps and by one unit per own completion reported without state change");
+        assert!(pre.czo == G_EXPECT[mi].czo,
+            "C08: the zeroed-once flags of a machine are reset once at the start of a call and then persist for the whole call (all events of a batch)");
         assert!(pre.slot == G_EXPECT[mi].slot, "C04/C10: a machine's action slot is reset at the start of a call and otherwise written only by its own steps (or withdrawn with LimitReached)");
         // LimitReached is raised exactly when due, immediately
         if G_LR_DUE {
@@ -102,7 +107,7 @@ where
             G_SIG_GOT[mi] += 1;
         } else {
             assert!(!G_ROUND_STARTED, "C09: the signal round is the last thing that happens in a call");
-            assert!(ev == EV_LIMIT || ev == G_CUR_EV, "C05: machines are stepped with the reported event (or the internal LimitReached / Signal)");
+            assert!(ev == EV_LIMIT || ev == G_CUR_EV || ev == G_CUR_EV2, "C05: machines are stepped with the reported event (or the internal LimitReached / Signal)");
             if ev != EV_LIMIT && G_CUR_EV != 6 && !matches!(G_CUR_EV, 0 | 1 | 2 | 3 | 5 | 7) {
                 assert!(mi == G_CUR_ID, "C10: an event addressed to one machine is delivered to that machine only");
             }
@@ -200,8 +205,10 @@ pub(crate) fn any_event(kind: u8, idcase: usize, nm: usize) -> TriggerEvent {
     };
     let m = MachineId::from_raw(raw);
     // kind 255: any of the ten kinds (symbolic); otherwise the case-split value
-    let k: u8 = if kind == 255 { kani::any() } else { kind };
+    let k: u8 = if kind == 255 || kind == 100 { kani::any() } else { kind };
     kani::assume(k < 10);
+    // kind 100: one of the four plain kinds (used for two-event batches)
+    kani::assume(kind != 100 || k == 0 || k == 1 || k == 2 || k == 5);
     match k {
         0 => TriggerEvent::NormalRecv,
         1 => TriggerEvent::PaddingRecv,
@@ -318,8 +325,9 @@ pub(crate) fn l2_body<const M: usize, const B: usize>(kind: u8, idcase: usize) {
 
     // ---- ghost: independent recount from the reported event alone (single-event calls: the
     // counts "including that event" are known before the call)
-    assert!(B == 1);
+    assert!(B == 1 || (B == 2 && kind == 100));
     let (ev, id, global) = event_info(&events[0]);
+    let ev2 = if B == 2 { event_info(&events[B - 1]).0 } else { usize::MAX };
     unsafe {
         G_STEPS = 0;
         G_EVENTS = B;
@@ -330,6 +338,7 @@ pub(crate) fn l2_body<const M: usize, const B: usize>(kind: u8, idcase: usize) {
         G_BLOCK_DUR = ac.f_block_dur;
         G_NOW = now;
         G_CUR_EV = ev;
+        G_CUR_EV2 = ev2;
         G_CUR_ID = id;
         G_OWN_DONE = false;
         G_LR_DUE = false;
@@ -509,6 +518,18 @@ macro_rules! l2 {
     };
 }
 l2!(l2_m0, 0, 255, 255);
+macro_rules! l2b {
+    ($name:ident, $m:expr) => {
+        #[kani::proof]
+        #[kani::unwind(5)]
+        #[kani::stub(Framework::transition, transition_tc)]
+        fn $name() {
+            l2_body::<$m, 2>(100, 255);
+        }
+    };
+}
+l2b!(l2_batch2_m1, 1);
+l2b!(l2_batch2_m2, 2);
 // global events (and BlockingBegin, whose id is only compared): id symbolic
 l2!(l2_m1_e0, 1, 0, 255);
 l2!(l2_m1_e1, 1, 1, 255);
